@@ -609,8 +609,11 @@ func extractedRouteLists(r *evid.Report) int {
 		}
 		// one method per endpoint, named after its handler
 		for _, ep := range eps {
-			if !strings.Contains(text, "async "+ep.Contract.Name+"(") {
-				r.Fail(evid.Failure{Clause: "C14/one-method-per-endpoint", Sig: "method missing", Detail: "no method " + ep.Contract.Name, Family: "F-routes", Features: p.Features})
+			switch n := strings.Count(text, "async "+ep.Contract.Name+"("); {
+			case n == 0:
+				r.Fail(evid.Failure{Clause: "C14/one-method-per-endpoint", Sig: "method missing", Detail: "no method " + ep.Contract.Name, Family: "F-routes", Features: p.Features, Files: p.FilesMap(), Vector: c.(*explore.Run).Vec()})
+			case n > 1: // two endpoints share one method name: the later member replaces the earlier one
+				r.Fail(evid.Failure{Clause: "C14/one-method-per-endpoint", Sig: "method " + regexpMust(`[0-9]+`).ReplaceAllString(ep.Contract.Name, "#") + " defined more than once", Detail: fmt.Sprintf("method %s is defined %d times in the class (endpoint %s %s)", ep.Contract.Name, n, ep.Method, ep.Url), Family: "F-routes", Features: p.Features, Files: p.FilesMap(), Vector: c.(*explore.Run).Vec()})
 			}
 		}
 	}, func(*explore.Run) {}, &st)
